@@ -62,7 +62,8 @@ HARNESSES = [
 HARNESSES += [
   grow('single_gb', ('gb',), True, 0, [sc2(p, m, 3, MIND=1, TABW=8, PROBE=0) for p, m in ((6, 0), (7, 1))], K=3, tiers=('thorough',), timeout=3600),
   grow('single_pb', ('pb',), True, 0, [sc2(p, m, 1, TABW=8, PROBE=0) for p, m in ((7, 0), (7, 1), (8, 0), (8, 1))], K=4),
-] + [grow('pb2_p%d' % p, ('pb', 'pb'), False, 2, [sc2(p, 0, 2, **({'PROBE': 0} if p else {}))], scenarios_thorough=[sc2(p, 0, 2, ROUNDS=3, **({'PROBE': 0} if p else {}))], timeout=1800) for p in (0, 1, 2, 3)] + [
+] + [grow('pb2_p%d' % p, ('pb', 'pb'), False, 2, [sc2(p, 0, 2, **({'PROBE': 0} if p else {}))], scenarios_thorough=[sc2(p, 0, 2, ROUNDS=3, **({'PROBE': 0} if p else {}))], timeout=1800,
+          tiers=(('quick', 'thorough') if p in (0, 2) else ('thorough',))) for p in (0, 1, 2, 3)] + [   # quick keeps the two pb2 queries that catch M1/M6 (p0) and M4/M5 (p2)
   grow('pb3', ('pb', 'pb', 'pb'), False, 1, [sc2(p, 0, 3, **({'PROBE': 0} if p else {})) for p in (0, 1, 2)], tiers=('thorough',), timeout=3600),
   grow('gb_gb', ('gb', 'gb'), False, 1, [sc2(p, 0, 6, **({'PROBE': 0} if p else {})) for p in (0, 2)], tiers=('thorough',), timeout=3600),
   grow('pb_gb', ('pb', 'gb'), False, 2, [sc2(p, m, 4, **({'PROBE': 0} if p else {})) for p, m in ((0, 0), (1, 0), (3, 0), (3, 1))], tiers=('thorough',), timeout=3600),
